@@ -1201,6 +1201,11 @@ def call_ext(interp, dotted: str, args: List[V], kwargs: Dict[str, V], node, cc)
         if ax is None:
             return Term("norm", [x])
         return Term("norm", [x], {"axis": Const(ax)})
+    if d in ("numpy.ravel", "numpy.atleast_1d", "numpy.asanyarray", "numpy.ascontiguousarray", "numpy.copy") and args:
+        if d == "numpy.ravel":
+            r = call_method(interp, args[0], "ravel", [], {}, node, None)
+            return r if r is not None else Term("ravel", [args[0]])
+        return args[0]
     if d in ("numpy.cross", "numpy.dot", "numpy.outer", "numpy.matmul", "numpy.multiply", "numpy.divide", "numpy.kron",
              "numpy.vstack", "numpy.diag", "numpy.eye", "numpy.clip", "numpy.linalg.inv", "numpy.linalg.matrix_rank",
              "numpy.diagonal", "numpy.cumsum", "numpy.squeeze", "numpy.transpose", "numpy.argpartition",
